@@ -173,3 +173,21 @@ pub fn mutate_after_format() -> String {
     if m.formatted() != build("after").formatted() { bad.push("message: Subject replaced after formatting is not what is formatted".into()); }
     if bad.is_empty() { "ok".into() } else { format!("bad\t{}", hex(bad.join(" | ").as_bytes())) }
 }
+
+/// a multipart whose Content-Type the caller wrote out in full (kind, boundary and any further parameters) and handed to
+/// MultiPartBuilder::header: formatted alone, as the root of a message, and nested in a mixed parent
+pub fn ctype_multi(cth: &str) -> String {
+    let ct = match s(cth).and_then(|x| ContentType::parse(&x).map_err(|e| format!("ctype: {e}"))) { Ok(c) => c, Err(e) => return format!("err\t{e}") };
+    let r = std::panic::catch_unwind(move || {
+        let mk = || MultiPart::builder().header(ct.clone()).singlepart(SinglePart::plain(String::from("one"))).singlepart(SinglePart::html(String::from("<p>two</p>")));
+        let alone = mk().formatted();
+        let root = lettre::Message::builder().from("a@x.example".parse().unwrap()).to("b@x.example".parse().unwrap()).multipart(mk()).map(|m| m.formatted());
+        let nested = MultiPart::mixed().boundary("outer-outer-outer").multipart(mk()).formatted();
+        (alone, root, nested)
+    });
+    match r {
+        Ok((a, Ok(b), c)) => format!("ok\t{}\t{}\t{}", hex(&a), hex(&b), hex(&c)),
+        Ok((_, Err(e), _)) => format!("err\tbuild: {e}"),
+        Err(_) => "panic".into(),
+    }
+}
